@@ -44,12 +44,33 @@ def main(argv):
         if props.PROPS[prop].get("custom"):
             return props.PROPS[prop]["custom"](prop, tier, replay)
         run, spec = run_property(prop, tier)
+        extra = {}
+        if tier == "thorough":
+            # the same rule instances on the other feature configurations
+            cfgs = {"default": {"instances": len(run.instances), "findings": len(run.findings)}}
+            for cfg in ("nodefault", "std-only"):
+                r2, _ = run_property(prop, tier, cfg)
+                cfgs[cfg] = {"instances": len(r2.instances), "findings": len(r2.findings),
+                             "bodies_mir": len(r2.facts.mir)}
+                have = {f.key for f in run.findings}
+                for f in r2.findings:
+                    if f.key not in have:
+                        f.what = "[%s] %s" % (cfg, f.what)
+                        run.findings.append(f)
+                run.obligations += r2.obligations
+                run.instances += [dict(i, where="[%s] %s" % (cfg, i["where"])) for i in r2.instances]
+            extra["configurations"] = cfgs
+            import selftest
+            st = selftest.run_for(prop)
+            extra["selftest"] = st
+            if st.get("failed"):
+                print("SELFTEST-FAILED %s: %s" % (prop, ", ".join(st["failed"])))
         code = engine.finish(run, spec["level"], spec["explanation"],
                              spec.get("trusted", props.TRUSTED_COMMON),
-                             spec.get("assumptions", props.ASSUME_COMMON))
-        if tier == "thorough" and code == 0:
-            import thorough
-            code = thorough.run(prop, run, spec)
+                             spec.get("assumptions", props.ASSUME_COMMON),
+                             extra_cov=extra, checker_cmd=getattr(run, "checker_cmd", None))
+        if tier == "thorough" and extra.get("selftest", {}).get("failed") and code == 0:
+            return 2
         return code
     except AnalysisError as e:
         print("ANALYSIS-ERROR: %s" % e)
